@@ -74,7 +74,8 @@ def compare_run(out, h, ref, check_final=True):
         b = ref.reqlog[i] if i < len(ref.reqlog) else None
         kind = "request"
         if a and b and a[:2] == b[:2]:
-            action = (h.program["root"] if a[0] == -1 else _node_of(h, ref, a[0]))[a[1]]
+            action = (h.program["root"] if a[0] == -1 else h.program["initial"][-3 - a[0]] if a[0] <= -3
+                      else _node_of(h, ref, a[0]))[a[1]]
             what = action[0] if action[0] != "bad" else action[1]
             kind = "request-%s-%s" % ("accepted" if a[2] == "ok" else "refused", what)
         out.fail(kind, {"sut": a, "ref": b})
@@ -115,8 +116,22 @@ def _num(x):
     return float.fromhex(x) if isinstance(x, str) else x
 
 
+def _with_initial_methods(case):
+    """A third of the cases (chosen by a hash of the case, so that generation is untouched) register two or three
+    initial methods before initialize(): the SAME target and method name with different keyword arguments, each
+    scheduling one root event.  Every registration is a root of the model program: all of them are carried out."""
+    import zlib
+    import json as _json
+    c = zlib.crc32(_json.dumps(case, sort_keys=True).encode())
+    if c % 3 != 1 or not case.get("nodes") or "initial" in case:
+        return case
+    n = 2 + (c >> 8) % 2
+    return dict(case, initial=[[["now", (c >> 12) % 7 + i, 5 + (i % 2)]] for i in range(n)], initial_calls=list(range(n)))
+
+
 def run_case(case):
     out = Outcome()
+    case = _with_initial_methods(case)
     ref = RefSim(case)
     ref.initialize()
     ref.run()
@@ -140,6 +155,9 @@ def run_case(case):
             from vlib.simharness import Recorder
             h.rec = Recorder()
             case = dict(case, drive="start")
+        for idx in case.get("initial_calls", []):
+            h.sim.add_initial_method(h.model, "initial", idx=idx)
+            out.label("initial-methods")
         h.initialize()
         # another simulator lives in the same process (a second model, a reference run): initialised after this one,
         # holding two pending events, never run.  Its events are its own, and this one's are this one's.
